@@ -97,6 +97,31 @@ fn run_lib(entry: &str, settings: &Settings, input: &str) -> String {
         let mut buffer = String::new();
         node.render(&mut buffer).expect("must render");
         buffer
+    } else if entry == "mutate" {
+        // a buffer that is rendered, then filled cell by cell through the public `DerefMut`, rendered again, changed back
+        // and forth once more, and rendered with the requested settings: the last document must be the one a fresh buffer
+        // of the same cells gives (the input must be free of quoted strings and legends: those do not live in the cell map)
+        let full = svgbob::CellBuffer::from(input);
+        let mut cb = svgbob::CellBuffer::new();
+        let _empty: svgbob::Node<()> = cb.get_node();
+        let cells: Vec<(svgbob::Cell, char)> = full.iter().map(|(c, ch)| (*c, *ch)).collect();
+        let half = cells.len() / 2;
+        for (c, ch) in cells.iter().take(half) {
+            cb.insert(*c, *ch);
+        }
+        let _half: svgbob::Node<()> = cb.get_node();
+        for (c, ch) in cells.iter().skip(half) {
+            cb.insert(*c, *ch);
+        }
+        if let Some((c, ch)) = cells.first() {
+            cb.remove(c);
+            let _without: (svgbob::Node<()>, f32, f32) = cb.get_node_with_size(settings);
+            cb.insert(*c, *ch);
+        }
+        let (node, _w, _h): (svgbob::Node<()>, f32, f32) = cb.get_node_with_size(settings);
+        let mut buffer = String::new();
+        node.render(&mut buffer).expect("must render");
+        buffer
     } else if let Some(rest) = entry.strip_prefix("override:") {
         let mut it = rest.split(':');
         let w = parse_f32(it.next().unwrap());
